@@ -531,3 +531,153 @@ def hooks_outside_scope(doc):
         return None
 
     return _run(main())
+
+
+# ---------------------------------------------------------------------------------------------------- C09
+def _ref_run(prog, oracle):
+    """reference interpreter of the structured program (DESIGN D.2): returns (calls, result)"""
+    calls = []
+    count = {}
+
+    class Ret(Exception):
+        def __init__(self, v):
+            self.v = v
+
+    def ask(name):
+        calls.append(name)
+        i = count.get(name, 0)
+        count[name] = i + 1
+        vals = oracle.get(name, [])
+        return vals[i] if i < len(vals) else (False if name.startswith('p') else None)
+
+    last = [None]
+
+    def run(block):
+        for ins in block:
+            kind = ins[0]
+            if kind == 'call':
+                v = ask(ins[1])
+                last[0] = v
+                if v is not None and not isinstance(v, dict):
+                    raise Ret(v)
+            elif kind == 'ret':
+                raise Ret(ins[1])
+            elif kind == 'if':
+                for pred, body in ins[1]:
+                    if pred is None or ask(pred):
+                        run(body)
+                        break
+            elif kind == 'while':
+                while ask(ins[1]):
+                    run(ins[2])
+
+    try:
+        run(prog)
+    except Ret as r:
+        return calls, r.v
+    return calls, last[0]
+
+
+def _build(prog, cls):
+    from plumpy.workchains import if_, return_, while_
+    out = []
+    for ins in prog:
+        if ins[0] == 'call':
+            out.append(getattr(cls, ins[1]))
+        elif ins[0] == 'ret':
+            out.append(return_ if ins[1] is None else return_(ins[1]))
+        elif ins[0] == 'if':
+            node = None
+            for pred, body in ins[1]:
+                if node is None:
+                    node = if_(getattr(cls, pred))(*_build(body, cls))
+                elif pred is None:
+                    node = node.else_(*_build(body, cls))
+                else:
+                    node = node.elif_(getattr(cls, pred))(*_build(body, cls))
+            out.append(node)
+        elif ins[0] == 'while':
+            out.append(while_(getattr(cls, ins[1]))(*_build(ins[2], cls)))
+    return out
+
+
+def outline_semantics(doc):
+    """bounded search: small outlines x predicate/step oracles, real WorkChain vs the reference interpreter"""
+    import itertools
+    from rprocs import make_chain
+
+    C = lambda n: ('call', n)
+    progs = [
+        [C('s0'), ('if', [('p0', [C('s1')]), ('p1', [C('s2')]), (None, [C('s3')])]), C('s0')],
+        [('while', 'p0', [C('s0'), ('if', [('p1', [C('s1'), ('ret', 7)])]), C('s2')]), C('s3')],
+        [C('s0'), ('if', [('p0', [('ret', None)])]), ('while', 'p1', [C('s1')]), ('ret', 3), C('s2')],
+        [('if', [('p0', [C('s0'), C('s1')])]), ('if', [('p1', [C('s2')]), ('p2', [C('s3')])])],
+        [C('s0'), C('s1')],
+    ]
+    oracles = []
+    for bits in itertools.product([False, True], repeat=3):
+        oracles.append({'p0': [bits[0], False], 'p1': [bits[1], bits[0], False], 'p2': [bits[2]]})
+    oracles.append({'p0': [True, True, False], 'p1': [False, True], 's0': [None, None], 's1': [5]})
+    oracles.append({'p0': [True], 'p1': [True, True, False], 's1': [None, 'stop']})
+    oracles.append({'s0': [{}], 'p0': [True], 'p1': [False]})
+
+    async def main():
+        for prog in progs:
+            for oracle in oracles:
+                cls = make_chain(lambda c, prog=prog: _build(prog, c), oracle)
+                wc = cls()
+                await wc.step_until_terminated()
+                want_calls, want_res = _ref_run(prog, oracle)
+                got_res = wc.result() if wc.state.name == 'FINISHED' else ('<%s>' % wc.state.name)
+                if list(cls.log) != want_calls or got_res != want_res:
+                    return (f'outline {prog} with oracle {oracle}: calls {list(cls.log)} result {got_res!r}; '
+                            f'the structured program gives calls {want_calls} result {want_res!r}')
+        return await _value_beats_awaitables()
+
+    return _run(main())
+
+
+async def _value_beats_awaitables():
+    """a step's plain value stops the chain at once, even when the step also handed something to the context"""
+    import plumpy
+    from plumpy.workchains import WorkChain
+    log = []
+
+    class W(WorkChain):
+        @classmethod
+        def define(cls, spec):
+            super().define(spec)
+            spec.outline(cls.a, cls.b)
+
+        def a(self):
+            fut = plumpy.Future()
+            fut.set_result(1)
+            self.to_context(x=fut)
+            log.append('a')
+            return 5
+
+        def b(self):
+            log.append('b')
+
+    wc = W()
+    try:
+        await asyncio.wait_for(wc.step_until_terminated(), 10)
+    except asyncio.TimeoutError:
+        return 'a step returning the plain value 5 after to_context(): the chain did not terminate'
+    if log != ['a'] or wc.state.name != 'FINISHED' or wc.result() != 5:
+        return (f'a step returning the plain value 5 after to_context(): steps run {log}, state {wc.state.name}, '
+                f'result {wc.result() if wc.state.name == "FINISHED" else None!r}; expected steps [a], FINISHED, 5')
+    return None
+
+
+def return_instruction(doc):
+    """return_(code) must denote a new instruction and leave the shared `return_` singleton alone"""
+    from plumpy.workchains import return_
+    a = return_(301)
+    b = return_(302)
+    bad = []
+    if a is b or a is return_:
+        bad.append('return_(code) returned a shared object')
+    if a._exit_code != 301 or b._exit_code != 302 or return_._exit_code is not None:
+        bad.append(f'exit codes: return_(301)->{a._exit_code}, return_(302)->{b._exit_code}, return_->{return_._exit_code}')
+    return '; '.join(bad)
